@@ -4,10 +4,11 @@ import json
 import asyncio
 from datetime import datetime
 import signal
-from AIDojoCoordinator.game_components import Action, Observation, ActionType, GameStatus, GameState, AgentStatus, ProtocolConfig
+from AIDojoCoordinator.game_components import Action, Observation, ActionType, GameStatus, GameState, AgentStatus, ProtocolConfig, AgentInfo, IP, Network, Service, Data
 from AIDojoCoordinator.global_defender import GlobalDefender
 from AIDojoCoordinator.utils.utils import observation_as_dict, get_str_hash, ConfigParser
 import os
+import netaddr
 from aiohttp import ClientSession
 from cyst.api.environment.environment import Environment
 
@@ -418,6 +419,9 @@ class GameCoordinator:
         try:
             self.logger.info(f"New Join request by  {agent_addr}.")
             if agent_addr not in self.agents:
+                if not isinstance(action.parameters.get("agent_info"), AgentInfo):
+                    await self._respond_bad_request(agent_addr, "Missing or invalid parameter 'agent_info'.")
+                    return
                 agent_name = action.parameters["agent_info"].name
                 agent_role = action.parameters["agent_info"].role
                 if agent_role in self.ALLOWED_ROLES:
@@ -449,6 +453,8 @@ class GameCoordinator:
                                 },
                         }
                         await self._agent_response_queues[agent_addr].put(self.convert_msg_dict_to_json(output_message_dict))
+                    else:
+                        await self._respond_bad_request(agent_addr, "Registration failed.")
                 else:
                     self.logger.info(
                         f"\tError in registration, unknown agent role: {agent_role}!"
@@ -500,6 +506,9 @@ class GameCoordinator:
         Outputs: None
         """
         self.logger.debug("Beginning the _process_reset_game_action.")
+        if agent_addr not in self.agents:
+            await self._respond_bad_request(agent_addr, "Agent has not joined the game.")
+            return
         async with self._reset_lock:
              # add reset request for this agent
             self._reset_requests[agent_addr] = True
@@ -532,7 +541,41 @@ class GameCoordinator:
         response_msg_json = self.convert_msg_dict_to_json(output_message_dict)
         await self._agent_response_queues[agent_addr].put(response_msg_json)
 
+    def _validate_game_action(self, action:Action)->str:
+        """
+        Checks that the action has all parameters required by its type (with correct types).
+        Returns description of the problem or None if the action is valid.
+        """
+        required_parameters = {
+            ActionType.ScanNetwork: {"source_host": IP, "target_network": Network},
+            ActionType.FindServices: {"source_host": IP, "target_host": IP},
+            ActionType.FindData: {"source_host": IP, "target_host": IP},
+            ActionType.ExploitService: {"source_host": IP, "target_host": IP, "target_service": Service},
+            ActionType.ExfiltrateData: {"source_host": IP, "target_host": IP, "data": Data},
+            ActionType.BlockIP: {"source_host": IP, "target_host": IP, "blocked_host": IP},
+        }
+        for name, expected_type in required_parameters[action.type].items():
+            if not isinstance(action.parameters.get(name), expected_type):
+                return f"Missing or invalid parameter '{name}'."
+            try:
+                hash(action.parameters[name])
+            except TypeError:
+                return f"Missing or invalid parameter '{name}'."
+        if "target_network" in required_parameters[action.type]:
+            try:
+                netaddr.IPNetwork(str(action.parameters["target_network"]))
+            except (netaddr.core.AddrFormatError, ValueError, TypeError):
+                return "Invalid parameter 'target_network'."
+        return None
+
     async def _process_game_action(self, agent_addr: tuple, action:Action)->None:
+        if agent_addr not in self.agents:
+            await self._respond_bad_request(agent_addr, "Agent has not joined the game.")
+            return
+        invalid_reason = self._validate_game_action(action)
+        if invalid_reason:
+            await self._respond_bad_request(agent_addr, invalid_reason)
+            return
         if self._episode_ends[agent_addr]:
             self.logger.warning(f"Agent {agent_addr}({self.agents[agent_addr]}) is attempting to play action {action} after the end of the episode!")
             # agent can't play any more actions in the game
